@@ -513,6 +513,14 @@ func (t *decideTr) stmts(ss []ast.Stmt, fall string) (string, error) {
 			}
 		}
 	case *ast.RangeStmt:
+		// trace mode, outside the loop body: the loop as a whole is one effect (its body is translated on its own)
+		if t.spec.trace != nil && !t.spec.loopBody && !hasReturn(x.Body.List) {
+			cont, err := t.stmts(rest, fall)
+			if err != nil {
+				return "", err
+			}
+			return "(" + leanStr("range "+t.text(x.X)) + " :: " + cont + ")", nil
+		}
 		// for _, i := range <atom list> { acc op= i }  – an accumulating loop: a left fold over the list
 		if coll, ok := t.spec.atoms[t.text(x.X)]; ok && !hasReturn(x.Body.List) && x.Key != nil && t.text(x.Key) == "_" {
 			if v, okv := x.Value.(*ast.Ident); okv && len(x.Body.List) == 1 {
@@ -593,12 +601,21 @@ func translateDecide(src string, spec *decideSpec) (string, error) {
 		list, fall := fd.Body.List, ""
 		if spec.loopBody {
 			list = nil
-			for _, st := range fd.Body.List {
-				if f, ok := st.(*ast.ForStmt); ok {
-					list, fall = f.Body.List, "[]"
-					break
+			// the first loop of the function, wherever it is nested
+			ast.Inspect(fd.Body, func(n ast.Node) bool {
+				if list != nil {
+					return false
 				}
-			}
+				switch f := n.(type) {
+				case *ast.ForStmt:
+					list, fall = f.Body.List, "[]"
+				case *ast.RangeStmt:
+					list, fall = f.Body.List, "[]"
+				case *ast.FuncLit:
+					return false
+				}
+				return list == nil
+			})
 			if list == nil {
 				return "", fmt.Errorf("%s.%s: no for loop", spec.recv, spec.fn)
 			}
